@@ -229,10 +229,13 @@ def union_rule(prog, rep):
     p1, p2 = fi.params
     body = fi.node.body
     t = [norm(s) for s in body]
-    oks = any(x in (f"events = sorted({p1} + {p2})", f"events = sorted({p2} + {p1})") for x in t)
-    rep.check(oks, "UNION", fi.short, "sorted concatenation", "events = sorted(events1 + events2)", "the sweep does not run over the sorted concatenation of both lists", fi.loc())
     loops = [s for s in body if isinstance(s, ast.For)]
     sweep_l = [l for l in loops if any(isinstance(x, ast.If) for x in l.body)]
+    # the list the sweep walks (under whatever name) is bound once, to the sorted concatenation of both parameters
+    swept = norm(sweep_l[0].iter) if len(sweep_l) == 1 else "events"
+    sorted_defs = [s for s in body if isinstance(s, ast.Assign) and len(s.targets) == 1 and norm(s.targets[0]) == swept]
+    oks = len(sorted_defs) == 1 and norm(sorted_defs[0].value) in (f"sorted({p1} + {p2})", f"sorted({p2} + {p1})")
+    rep.check(oks, "UNION", fi.short, "sorted concatenation", "events = sorted(events1 + events2)", "the sweep does not run over the sorted concatenation of both lists", fi.loc())
     if len(sweep_l) != 1:
         rep.undecided("UNION", fi.short, "sweep loop", f"{len(sweep_l)} candidate loops", fi.loc())
         return
